@@ -64,7 +64,7 @@ def cases(tier, seed):
     import random
     # chunk iteration through a handle whose array was changed by other means (by path, second handle, re-creation)
     yield from hist_stale.array_cases(random.Random(f'C14:{seed}:stale'), 150 if tier == 'quick' else 2000, seed,
-                                      hops=['h:chunks', 'h:chunks', 'h:app', 'h:trunc'])
+                                      hops=['h:chunks', 'h:chunks', 'h:app', 'h:trunc', 'h:ctxfail'])
     for k in range(16 if tier == 'quick' else 64):
         yield {'kind': 'fitrandom', 'k': k}
 
